@@ -35,7 +35,7 @@ EXPLANATION = ("Real TraceAnalysis.get_frequent_cuda_kernel_sequences (CudaKerne
                "admissible assignment of start orders (disjunction decided by z3), rows by descending count. Non-trivial "
                "path = two instances with the same pattern or a nested instance.")
 ASSUMPTIONS = ["trace times consistent with the skeleton's nesting structure (launch calls inside their operator instance, "
-               "sibling instances in index order), kernel.ts >= launch.ts", "the operator name is not a substring of another "
+               "sibling instances in index order); kernel.ts >= launch.ts only for the structures with >= 3 launches or a wrapper operator", "the operator name is not a substring of another "
                "name of the vocabulary", "overlay of the patterns onto the raw trace and the file write are stubbed in the "
                "symbolic run (they are C20's subject)"]
 STUBS = ["hta.common.trace_parser.parse_trace_dict", "Trace._validate_trace_files",
@@ -50,7 +50,8 @@ def skeletons(tier):
     for k, st in S.items():
         for ml in lens:
             for tk in ((5,) if (tier == "quick" and ml == 2) else (1, 5)):
-                out.append({"id": f"{k}-len{ml}-top{tk}", "struct": st, "params": {"minlen": ml, "topk": tk}})
+                causal = sum(len(it[1]) for it in st) >= 3 or any(len(it) > 2 for it in st)
+                out.append({"id": f"{k}-len{ml}-top{tk}", "struct": st, "params": {"minlen": ml, "topk": tk, "causal": causal}})
     return out
 
 
@@ -100,7 +101,10 @@ def run(ctx):
                 ctx.assume(prev["end"] <= x["ts"])
             prev = x
         for k in I["kernels"]:
-            ctx.assume(k["ts"] >= k["launch"]["ts"])
+            if ctx.params.get("causal", True):
+                # the quantifier does not ask for causal consistency: assumed only where the family would not fit the
+                # budget otherwise (structures with three launches or a wrapper), see skeletons()
+                ctx.assume(k["ts"] >= k["launch"]["ts"])
     tops = [I for I in inst if I["parent"] == -1]
     for a, b in zip(tops, tops[1:]):
         ctx.assume(a["end"] <= b["ts"])
